@@ -425,3 +425,10 @@ Proof.
   - destruct (negb (match Npci.dadr h with None => true | Some Npci.GBroadcast => true | Some _ => false end));
       [cbn [fst snd]; split; [reflexivity | apply same_tables_refl] | apply G; apply same_tables_refl].
 Qed.
+
+Example peer_decode_examples :
+  peer_decode (peer_code None [9%N]) = (None, [9%N]) /\
+  peer_decode (peer_code (Some 700%N) [1; 0; 255]%N) = (Some 700%N, [1; 0; 255]%N) /\
+  peer_decode (peer_code (Some 0%N) [0; 0]%N) = (Some 0%N, [0; 0]%N) /\
+  peer_code None [0; 9]%N <> peer_code None [9%N].
+Proof. vm_compute. repeat split; discriminate. Qed.
